@@ -556,6 +556,15 @@ def fam_abase(tier, seed):
             s = struct("abase", "AD%d" % N, N, fs, default={"form": "=", "value": dv}, family="ABASE")
             add_const_witnesses(s, seed, maxn=1)
             out.append(s)
+        # (d) range lists that end at the top bit: adjacent pieces, a descending pair, and a list naming bits twice
+        # (legal; its accessors are outside C04, but nothing may reach above bit N-1)
+        if N >= 6 and (N in (6, 7, 9, 12, 15, 17, 24, 31, 33, 48, 63, 65, 70, 100, 127) or tier == "thorough"):
+            fs = [field("adj", [(N - 4, N - 3), (N - 2, N - 1)], T_uint(4), syn=N),
+                  field("desc", [(N - 2, N - 1), (N - 6, N - 3)], T_uint(6), syn=N + 5),
+                  field("twice", [(N - 6, N - 3), (N - 4, N - 1)], T_uint(8), syn=N + 9),
+                  field("low", [(0, 0)], T_bool())]
+            s = struct("abase", "AS%d" % N, N, fs, family="ABASE", default=({"form": "=", "value": 1} if N % 2 else None))
+            out.append(s)
         if tier == "thorough" and N in dense:
             for lo in range(N):
                 fs = []
